@@ -36,4 +36,7 @@ def run(repo, tier) -> Result:
     from ..ownership import check_raw_copies
 
     check_raw_copies("C12", res, repo, want=("validate",))
+    from ..framework_rules import check_settings_kept
+
+    check_settings_kept("C12", res, repo)
     return res
